@@ -505,7 +505,6 @@ PR = "breezy/bzr/pack_repo.py"
 
 MUTANTS = [
     Mutant("git branch keeps its ref lock when the repository refuses (fix fbb8084 reverted)", "breezy/git/branch.py", "        try:\n            self.repository.lock_write()\n        except BaseException:\n            # Undo what this call did, as a failed unlock() would not.\n            self._lock_count -= 1\n            if self._lock_count == 0:\n                self._unlock_ref()\n                self._lock_mode = None\n            raise\n", "        self.repository.lock_write()\n", expect="K9-own-lock-undone-when-dependency-refuses"),
-    Mutant("memory tree unlock counts below zero (fix d59fbca reverted)", "breezy/bzr/memorytree.py", "        if self._locks == 0:\n            raise errors.LockNotHeld(self)\n        if self._locks == 1:\n            self._basis_tree = None\n", "        if self._locks == 1:\n            self._basis_tree = None\n", expect="K10-unlock-refuses-at-zero"),
     Mutant("branch unlock releases the repository unconditionally again", "breezy/bzr/branch.py", "            if was_locked and not self.control_files.is_locked():\n", "            if not self.control_files.is_locked():\n", expect="K8-overunlock-leaves-others"),
     Mutant("remote branch unlock loses its not-held guard", "breezy/bzr/remote.py", "        \"\"\"Release the lock on this branch.\"\"\"\n        if not self._lock_count:\n            return lock.cant_unlock_not_held(self)\n", "        \"\"\"Release the lock on this branch.\"\"\"\n", expect="K8-overunlock-leaves-others"),
     Mutant("git tree records the write lock before taking index.lock", "breezy/git/workingtree.py", "        if not self._lock_mode:\n            try:\n                self._index_file = GitFile(", "        if not self._lock_mode:\n            self._lock_mode = \"w\"\n            self._lock_count = 1\n            try:\n                self._index_file = GitFile(", expect="K3-acquisition-unwinds"),
